@@ -1195,7 +1195,9 @@ def gen_requests(ctx, corpus):
               [('ELEVATION', '/' + 'outside'), ('TIME', TIMES[0])], [('DIM_..\\..\\x', '..\\..\\y')], [('dim_' + up.rstrip('/'), up.rstrip('/'))],
               [('DIM_\0n', 'v\0')],
               # a value / name that looks already escaped (has %2F, %25, %5C, %00) AND has raw separators
-              [('TIME', 'x%2F/' + up + 'outside/esc_v')], [('DIM_X%5C/' + up + 'outside/esc_n', '%25/' + up + 'outside/esc_v2'), ('ELEVATION', '%00/' + up + 'outside/esc_v3')]]
+              # (three levels up from <cache_dir>/<dimension directory> is the scratch root, which has a directory 'outside')
+              [('TIME', 'x%2F/' + '../' * 3 + 'outside/esc_v')],
+              [('DIM_X%5C/' + '../' * 3 + 'outside/esc_n', '%25/' + '../' * 3 + 'outside/esc_v2'), ('ELEVATION', '%00/' + '../' * 3 + 'outside/esc_v3')]]
     for layer in layers:
         for k, dims in enumerate(matrix):
             reqs.append(getmap(layer, dims, z=1 + k % 2))
